@@ -24,8 +24,18 @@ enum Fault {
     CorruptMagic,
     /// prefix sent, then silence until the idle timeout
     Silence,
+    /// connect, send and reset before the server has even accepted the connection
+    ResetBeforeAccept,
 }
-const FAULTS: [Fault; 6] = [Fault::Close, Fault::HalfClose, Fault::ResetSettled, Fault::ResetImmediate, Fault::CorruptMagic, Fault::Silence];
+const FAULTS: [Fault; 7] = [
+    Fault::Close,
+    Fault::HalfClose,
+    Fault::ResetSettled,
+    Fault::ResetImmediate,
+    Fault::CorruptMagic,
+    Fault::Silence,
+    Fault::ResetBeforeAccept,
+];
 
 fn streams() -> Vec<(String, Vec<Req>)> {
     let inc = |k: &[u8], o: u32| Req::delta(op::INCR, k, 1, 1, 0, 0).opaque(o);
@@ -92,7 +102,7 @@ fn run_case(sname: &str, reqs: &[Req], refs: &(Vec<Content>, Vec<usize>), offset
     let w = NetWorld::new(NetCfg::default())?;
     let mut obs = w.connect()?;
     obs.step(&w, &Req::store(op::SET, b"obs", b"mine", 9, 0, 0).opaque(0xeb1).bytes())?;
-    let mut c = w.connect()?;
+    let mut c = if fault == Fault::ResetBeforeAccept { w.connect_nosettle()? } else { w.connect()? };
     let mut steps = 2u64;
     let name = format!("stream {} cut at byte {} of {} ({} complete requests) fault {:?}", sname, offset, bytes.len(), complete, fault);
     let mut expected_js: Vec<usize> = vec![complete];
@@ -107,6 +117,13 @@ fn run_case(sname: &str, reqs: &[Req], refs: &(Vec<Content>, Vec<usize>), offset
         }
         Fault::ResetSettled => {
             let _ = c.step(&w, &bytes[..offset]);
+            c.abort(&w);
+            expected_js = (0..=complete).collect();
+        }
+        Fault::ResetBeforeAccept => {
+            if offset > 0 {
+                let _ = c.send(&w, &bytes[..offset]);
+            }
             c.abort(&w);
             expected_js = (0..=complete).collect();
         }
@@ -228,6 +245,14 @@ pub fn check(tier: Tier, threads: usize) -> CheckOutcome {
     let mut steps = 0u64;
     for ((si, off, f), r) in cases.iter().zip(results.iter()) {
         match r {
+            Err(e) if e.starts_with("connect:") => {
+                let sig = "server|not-accepting".to_string();
+                found.entry(sig.clone()).or_insert(Violation {
+                    signature: sig,
+                    what: format!("stream {} cut at {} fault {:?}: the server stopped accepting connections ({})", ss[*si].0, off, f, e),
+                    replay: json!({"engine": "c18", "stream": ss[*si].0, "offset": off, "fault": format!("{:?}", f)}),
+                });
+            }
             Err(e) => mach = Some(format!("{} offset {} {:?}: {}", ss[*si].0, off, f, e)),
             Ok(res) => {
                 steps += res.steps;
